@@ -106,6 +106,7 @@ var _ = digest.SpecHashSlot // spec functions used by the contracts below
 //@ func DelStaleCheckpoint
 //@   arith int
 //@   properties C17
+//@   replay checkpoint_gcTieBreak checkpoint_gcRace
 //@   ghost var curDb mathint
 //@   requires nonnil: cli != nil
 //   cpFound  checkpoints of the run id met by the scan (one per database that holds one, stale or not)
@@ -116,11 +117,14 @@ var _ = digest.SpecHashSlot // spec functions used by the contracts below
 //@   assert at call Do: never_the_newest: arg0 == "hdel" ==> !(exceptNewest && db#2 == newestDb)
 //@   assert at call Do: only_stale: arg0 == "hdel" ==> cpi#2.Mtime <= before
 //@   assert at call Do: the_position_a_restart_resumes_from_is_kept: arg0 == "hdel" && exceptNewest ==> cpi#2.Offset <= newest && (cpi#2.Offset == newest ==> db#2 != newestDb)
+//@   assert at call Do: what_is_removed_comes_before_the_kept_record_in_the_order_a_start_uses: arg0 == "hdel" && exceptNewest ==> cpi#2.Offset < newest || (cpi#2.Offset == newest && cpi#2.Mtime <= newestMtime)
 //@   loop 1:
 //@     invariant newest_is_the_largest_offset_seen: len(cpis) == len(dbs) && (forall j int :: 0 <= j && j < len(cpis) ==> cpis[j] != nil && cpis[j].Offset <= newest)
+//@     invariant newest_in_the_order_a_start_uses: forall j int :: 0 <= j && j < len(cpis) ==> cpis[j].Offset < newest || (cpis[j].Offset == newest && cpis[j].Mtime <= newestMtime)
 //@     invariant every_checkpoint_met_is_listed: len(dbs) == cpFound - old(cpFound)
 //@   loop 2:
 //@     invariant newest_is_the_largest_offset_seen: len(cpis) == len(dbs) && (forall j int :: 0 <= j && j < len(cpis) ==> cpis[j] != nil && cpis[j].Offset <= newest)
+//@     invariant newest_in_the_order_a_start_uses: forall j int :: 0 <= j && j < len(cpis) ==> cpis[j].Offset < newest || (cpis[j].Offset == newest && cpis[j].Mtime <= newestMtime)
 //@     invariant every_checkpoint_met_is_listed: len(dbs) == cpFound - old(cpFound) && 0 <= deleted && deleted <= rangeindex + 1 && rangeindex < len(dbs)
 
 // ---- co-located bookkeeping keys (C18): the tag generated for slot s hashes to s -------------
